@@ -40,8 +40,10 @@ For **all finite operands** (all 64-bit patterns whose exponent field is `< 2047
   the soft-float produces the single pattern `0x7FF8000000000001` = Go's `math.NaN()`).
 * The reference implementation `FB.*` on NaN/±∞ operands (`∞·0`, `∞−∞`, `x/∞`, comparisons and `min/max`
   with infinities beyond `lt/le`, …) apart from the statements above: still validated by differential testing
-  against the hardware only. The scoring code never produces such operands (all its intermediate values are
-  finite, see the `Score*` proofs).
+  against the hardware only. The v2.0/v3.x scoring code never produces such operands (all its intermediate values are
+  finite, see the `Score*` proofs); v4.0 `Score` does compute with NaN — `math.NaN()` marks a missing next-lower
+  MacroVector, then `abs(NaN − x)` and `math.IsNaN` — and uses exactly the NaN facts proved here (`sub_nan_correct`,
+  `abs_correct`, `isNaN_correct`); it never produces an infinity.
 * That Go's compiler/hardware implement IEEE-754 binary64 for `* / + −`, and that `math.Round` etc. behave as
   documented (this is the link between the Go program and this model, not a statement about the model).
 -/
